@@ -81,6 +81,7 @@ REWRITES = {
     "matches_ws": (
         r"matches!\(\s*(\w+)\s*,\s*Some\(([^()]*)\)\s*\)", None, "matches!(x, Some(p)) == match x { Some(p) => true, _ => false }"),
     "crate_paths": (r"\bcrate::processor::(Titles|Context)\b", r"\1", "crate::processor::X is the X of this file"),
+    "underscore_param": (r"\(&mut self, _: ", r"(&mut self, _unused: ", "a parameter pattern `_` is an unnamed (unused) parameter"),
     "pub_crate": (r"\bpub\(crate\)\s+", r"pub ", "visibility is irrelevant in a single file"),
     "deref_clone": (
         r"(\w+)\.deref\(\)\.clone\(\)", r"vrc::deref_clone(&\1)", "Rc<T>::deref().clone() clones the pointee"),
@@ -660,6 +661,11 @@ def canary_levels(template):
         ht = item.header_tokens()
         name = ht[ht.index("fn") + 1]
         body = [t.text for t in toks[item.body_open:item.body_close + 1] if t.kind == "ident"]
+        # calls that do not name their target: x.into() is From::from, x.try_into() is TryFrom::try_from, `?` converts with From::from
+        if "into" in body or any(t.text == "?" for t in toks[item.body_open:item.body_close + 1]):
+            body.append("from")
+        if "try_into" in body:
+            body.append("try_from")
         trait = None
         for el in fs.path:
             m = re.match(r"impl(?:<[^>]*>)?\s+([\w:]+)(?:<[^>]*>)?\s+for\s+(\S+)", el)
